@@ -31,6 +31,10 @@ type PCaller struct {
 	Fold    []bool  `json:"fold"`
 	Score   []int   `json:"score"`
 	Bank    []int64 `json:"bankroll"`
+	// seats whose contribution is reported a second time (duplicate delivery
+	// of the same report) before the pots are built; a repeat must be an
+	// idempotent overwrite
+	Dup []int `json:"dup,omitempty"`
 }
 
 type PCfg struct {
@@ -47,11 +51,11 @@ type pState struct {
 	done bool
 }
 
-func (p *pState) scriptLen() int { return 1 + p.n + 1 + 1 + p.n + 1 + p.n + 1 + 1 }
 
 // advance performs the next API call of the caller's script.
 func (p *pState) advance() (op string) {
 	n := p.n
+	d := len(p.c.Dup)
 	k := p.pc
 	p.pc++
 	switch {
@@ -62,6 +66,15 @@ func (p *pState) advance() (op string) {
 		i := k - 1
 		p.ll.AddContributor(p.c.Contrib[i], i, p.c.Fold[i])
 		return "AddContributor"
+	case k <= n+d:
+		i := p.c.Dup[k-n-1]
+		if i >= 0 && i < n {
+			p.ll.AddContributor(p.c.Contrib[i], i, p.c.Fold[i])
+		}
+		return "AddContributor(duplicate)"
+	}
+	k -= d
+	switch {
 	case k == n+1:
 		p.pots = p.ll.GetPots()
 		return "GetPots"
@@ -119,6 +132,11 @@ func drawPCfg(r *sim.RNG) *PCfg {
 			pc.Contrib[topAt] = 10
 			pc.Bank[topAt] += 10
 		}
+		if r.Chance(0.3) {
+			for j := 1 + r.Intn(2); j > 0; j-- {
+				pc.Dup = append(pc.Dup, r.Intn(n))
+			}
+		}
 		cfg.Callers = append(cfg.Callers, pc)
 	}
 	return cfg
@@ -144,7 +162,7 @@ func (w PWorld) Generate(subseed uint64, o sim.Options) *sim.Result {
 	remaining := make([]int, len(cfg.Callers))
 	total := 0
 	for i, pc := range cfg.Callers {
-		remaining[i] = 3*len(pc.Contrib) + 6
+		remaining[i] = 3*len(pc.Contrib) + 6 + len(pc.Dup)
 		total += remaining[i]
 	}
 	style := rng.Intn(3) // 0 fine-grained interleaving, 1 coarse blocks, 2 one after the other
